@@ -144,6 +144,11 @@ def headingBody (body : List Char) : List Char :=
   | some c => if isSpaceTab c then t else b1
   | none => b1
 
+/-- after the opening run: end of line, or a blank -/
+def headingSep : List Char → Bool
+  | [] => true
+  | ch :: _ => isSpaceTab ch
+
 def ruleHeading (codeOn : Bool) (ws : List Nat) : BRule := fun s startLine _ silent =>
   match getL s startLine with
   | .error e => .error e
@@ -157,10 +162,7 @@ def ruleHeading (codeOn : Bool) (ws : List Nat) : BRule := fun s startLine _ sil
       -- the counting loop stops at level 7
       if k > 6 then .ok (false, s) else
       let after := l.body.drop k
-      let sep := match after with
-        | [] => true
-        | ch :: _ => isSpaceTab ch
-      if !sep then .ok (false, s) else
+      if !headingSep after then .ok (false, s) else
       if silent then .ok (true, s) else
       let content := pyStrip ws (headingBody after)
       let tag := "h" ++ toString k
